@@ -227,13 +227,13 @@ PROPS = {
         "assumptions": COMMON_ASSUME,
     },
     "C16": {
-        "claim": "Round trip of the hand-written codecs (artifact rules in every form, commands, byproducts with the flattened extra map) and faithfulness/injectivity of the rule reader are Lean theorems for all values; every metadata type obtainable from the builders (layouts, links, signed blocks, steps, inspections, keys of all types, signatures) is serialised in four ways (to_string, pretty, canonical, JsonPretty), parsed and compared (value and byte-identical re-serialisation) on the real code; the rule and byproducts readers are compared with the model on arbitrary and near-valid token arrays / objects.",
-        "level_note": "Trusted: Lean kernel; serde-derive semantics as encoded in Model/Wire.lean; the derived struct codecs, PublicKey and chrono are oracle-only. Two builder-obtainable boundary classes fail the full statement and are listed in known_findings.json.",
+        "claim": "Lean theorems for all values: decode(encode x) = x for links, steps, inspections, layouts, signatures and signed blocks (Model/Codec.lean: the serde derives of Link/Step/Inspection/Layout with Layout::try_into/Signature/Metablock with the untagged MetadataWrapper, field types VirtualTargetPath, TargetDescription, KeyId, u32) and for the hand-written codecs (artifact rules in every form, commands, byproducts with the flattened extra map); the readers are faithful: the members a reader consumed are verbatim the encoding of the fields it returns (rule keyword and prefixes, threshold, digests in lower-case hex, key ids, command arguments, environment entries, type tags of steps/inspections), a written link is never read as a layout, a parsed key table only holds entries filed under the key's own id. Correspondence: the model's decode+encode is compared with serde_json::from_value + to_value on valid and mutated documents of all seven kinds (doc_dec), rule and byproducts readers on arbitrary token arrays/objects; every metadata type obtainable from the builders (including their defaults) is serialised in four ways (to_string, pretty, canonical, JsonPretty), parsed and compared (value and byte-identical re-serialisation); an accepted document must survive its own wire form.",
+        "level_note": "Trusted: Lean kernel; serde-derive semantics as encoded in Model/Wire.lean and Model/Codec.lean (validated by the doc_dec differential incl. mutations); parameters of the model: the public-key (de)serialiser with the key's intrinsic id (C12) and chrono's RFC 3339 reader/writer (observed per document and handed to the model as tables). Two builder-obtainable boundary classes fail the full statement and are listed in known_findings.json.",
         "technique": 'Lean 4 theorems about an executable model + model/implementation correspondence check (differential run with property oracle)',
-        "rule": "cases = generated values of every metadata type (all rule forms, optional prefixes, empty vs absent environment, extra byproducts, non-ASCII paths, 0-3 keys of all types, thresholds across u32) x four serialisations; ops = rule_dec / bp_dec on valid, mutated and random inputs; distinct = distinct op; non-trivial = arrays with at least two tokens / objects",
-        "trusted_base": ["serde-derive: missing/null Option = None, unknown members ignored, flatten collects the rest (Model/Wire.lean)", "derived codecs of Layout/Step/Inspection/Link/Signature/Metablock/PublicKey and chrono date handling: oracle only"],
-        "partial": ["theorems cover the hand-written codecs; the derived struct codecs are covered by the value-level oracle only", "known findings: reserved byproduct keys; expiry after year 9999"],
-        "assumptions": COMMON_ASSUME + ["expiry at whole seconds, as the statement prescribes"],
+        "rule": "cases = generated values of every metadata type (all rule forms, optional prefixes, empty vs absent environment, extra byproducts, non-ASCII paths, 0-3 keys of all types, thresholds across u32, builder defaults) x four serialisations; ops = doc_dec (link/step/insp/sig/layout/meta/block) on valid documents and on 1-2 random mutations (member deleted/renamed/added, value of another shape, damaged hex / key id / algorithm name, other expiry spellings incl. offsets and fractions, key-table entries refiled), rule_dec / bp_dec on valid, mutated and random inputs; distinct = distinct op; non-trivial = objects / arrays with at least two tokens",
+        "trusted_base": ["serde-derive: missing/null Option = None, unknown members ignored, flatten collects the rest, a collection fails as a whole (Model/Wire.lean, Model/Codec.lean; differential incl. mutations)", "PublicKey (de)serialisation and chrono's RFC 3339 reader/writer are parameters of the model (DocEnv), observed from the library per document"],
+        "partial": ["PublicKey JSON and RFC 3339 text are parameters of the codec model (their own round trip is a hypothesis of c16_layout_round_trip, sampled by the oracle)", "known findings: reserved byproduct keys; expiry after year 9999"],
+        "assumptions": COMMON_ASSUME + ["expiry at whole seconds, as the statement prescribes (enforced by LayoutMetadata::new since fix 04de89f)"],
     },
     "C17": {
         "claim": "The table of string requests made by the crate's hand-written decoders is regenerated from the source on every run; Lean proves that it contains no borrowed request and that a decoder making only owned requests is independent of channel and escape spelling; every document type is decoded on the real code through seven entry points and four spellings, which must agree.",
